@@ -139,10 +139,18 @@ def run_prepare(config, dirsel, kind, enum=None, secs=5):
     try:
         h = make_handler(config, dirsel, kind)
         if enum is not None:
-            real = sorted(h.vfs.listdir(dirsel))
-            if sorted(enum) != real:
-                raise RuntimeError("enumeration order is not a permutation of the directory")
-            h.vfs.listdir = lambda sel, _e=list(enum): list(_e)
+            # the real listdir still runs (with whatever it does besides returning names);
+            # only the ORDER of its result is replaced
+            orig = h.vfs.listdir
+
+            def listdir(sel, _e=list(enum)):
+                real = orig(sel)
+                if sel != dirsel:
+                    return real
+                if sorted(_e) != sorted(real):
+                    raise RuntimeError("enumeration order is not a permutation of the directory")
+                return list(_e)
+            h.vfs.listdir = listdir
         with_alarm(secs, h.prepare)
         return {"entries": [entry_fields(e) for e in h.fileentries]}
     except Timeout:
